@@ -76,9 +76,9 @@ def run_case(ctx, name, params):
         from artap.operators import Selector
 
         def mk_acc(orig):
-            def pop_acceptance(self, individuals, individual):
+            def pop_acceptance(self, individuals, individual, *a, **kw):
                 before = list(individuals)
-                res = orig(self, individuals, individual)
+                res = orig(self, individuals, individual, *a, **kw)
                 judge_acceptance(ctx, before, individual, list(individuals), "insitu")
                 ctx.count("insitu_acceptance_steps")
                 return res
